@@ -310,6 +310,19 @@ REJECT_MARKERS = ("Not enough memory to fit", "is below the minimum block size",
 CRASH_MARKERS = ("Bug in sort implementation", "Chain ending without poison")
 
 
+def build_nopunch():
+    """harness/shim/c07_nopunch.c: fallocate(PUNCH_HOLE) fails with EOPNOTSUPP (a -T directory on a file system without hole punching)"""
+    src = os.path.join(vlib.ROOT, "harness", "shim", "c07_nopunch.c")
+    outdir = os.path.join(vlib.CACHE, "shim")
+    os.makedirs(outdir, exist_ok=True)
+    so = os.path.join(outdir, "c07_nopunch-%s.so" % hashlib.sha256(open(src, "rb").read()).hexdigest()[:16])
+    if not os.path.exists(so):
+        tmp = so + ".%d.tmp" % os.getpid()
+        vlib.sh(["gcc", "-O2", "-shared", "-fPIC", "-o", tmp, src, "-ldl"], timeout=120, check=True)
+        os.replace(tmp, so)
+    return so
+
+
 def run_lmplz(ctx, tool, corpus, order, cfg, tag, extra=()):
     """-> (kind, digest dict or message)"""
     wd = os.path.join(ctx.scratch, "run-" + tag)
@@ -329,7 +342,9 @@ def run_lmplz(ctx, tool, corpus, order, cfg, tag, extra=()):
     # strace only counts ftruncate calls: Sort::Merge truncates the consumed data file and resets the offsets log once
     # per merge pass, so the count is a measured indicator of how many merge passes the run performed
     stlog = os.path.join(wd, "strace.log")
-    rc, out, err = vlib.sh(list(cfg.get("_prefix", [])) + ["strace", "-f", "-qq", "-e", "trace=ftruncate", "-o", stlog] + cmd, timeout=150)
+    # "_nopunch": the temporary directory behaves like a file system without hole punching (a legitimate -T facet)
+    penv = {"LD_PRELOAD": build_nopunch()} if cfg.get("_nopunch") else None
+    rc, out, err = vlib.sh(list(cfg.get("_prefix", [])) + ["strace", "-f", "-qq", "-e", "trace=ftruncate", "-o", stlog] + cmd, timeout=150, env=penv)
     truncs = 0
     if os.path.exists(stlog):
         truncs = sum(1 for l in open(stlog, errors="replace") if "ftruncate(" in l)
@@ -372,7 +387,7 @@ def run_lmplz(ctx, tool, corpus, order, cfg, tag, extra=()):
     else:
         res = ("crash", "rc=%d %s" % (rc, err[-400:]))
     shutil.rmtree(wd, ignore_errors=True)
-    return res[0], res[1], " ".join(list(cfg.get("_prefix", [])) + cmd[2:])
+    return res[0], res[1], " ".join((["LD_PRELOAD=c07_nopunch.so"] if cfg.get("_nopunch") else []) + list(cfg.get("_prefix", [])) + cmd[2:])
 
 
 def lattice(rng, big):
@@ -587,6 +602,17 @@ def run(ctx):
         open(vocab_file, "w").write(" ".join("w%d" % k for k in range(0, 300, 2)) + "\n")
         corpora.append(("zipf-limit-vocab", gen_corpus(rng, 4000, 300, 12, "zipf"), 3, ["--limit_vocab_file", vocab_file]))
         corpora.append(("ids-limit-vocab", gen_ids_corpus(rng, 3000, 300, 800, 12), 3, ["--limit_vocab_file", vocab_file, "--prune", "0", "0", "1"]))
+    # a vocabulary big enough to take GrowableVocab's table across the malloc -> mmap transition (2 MiB: 131072 buckets of 12-16
+    # bytes, i.e. ~90-120 thousand words) and through two more doublings, with estimates far below / just below / above that boundary
+    for i in range(ctx.pick(1, 2)):
+        nt = rng.range(245000, 330000)
+        lines = gen_vocab_corpus(rng, nt, "t")
+        vl = [{"S": "64M", "vocab_estimate": 2 * nt}, {"S": "64M", "vocab_estimate": 10}, {"S": "64M", "vocab_estimate": rng.range(60000, 108000)},
+              {"S": "64M", "vocab_estimate": rng.range(110000, 230000)}]
+        if big:
+            vl += [{"S": "64M", "vocab_estimate": 1000}, {"S": "64M", "vocab_estimate": 87000}, {"S": "64M", "vocab_estimate": 118000},
+                   {"S": "30M", "vocab_estimate": rng.range(2, 109000), "_nopunch": True}]
+        corpora.append(("bigvocab%d" % i, lines, 2, [], vl))
     # output mode: every second corpus (and always the first catalogue / record-id corpus) without --intermediate
     for k, entry in enumerate(corpora):
         if k % 2 == 1 or entry[0] in ("catalogue0", "ids0", "ids-unpruned"):
@@ -608,6 +634,9 @@ def run(ctx):
             reps = [cfgs[0], cfgs[6], cfgs[10]] * ctx.pick(1, 3)
             reps += [dict(cfgs[6], _prefix=["taskset", "-c", "0"]), dict(cfgs[10], _prefix=["taskset", "-c", "0"]),
                      dict(cfgs[0], _prefix=["nice", "-n", "19", "taskset", "-c", "0,1"])]
+            # the same memory variation once more with a temporary directory that cannot punch holes: real external merging
+            # (stripes longer than one merge buffer) in the low-memory settings, everything in RAM in the first
+            reps += [dict(cfgs[k], _nopunch=True) for k in ctx.pick((0, 7, 10, 13, 14), (0, 3, 5, 7, 10, 11, 13, 14))]
         for j, cfg in enumerate(cfgs + reps):
             kind, res, cmdline = run_lmplz(ctx, tool, path, order, cfg, "%s-%d" % (name, j), extra)
             tool_runs += 1
@@ -618,19 +647,19 @@ def run(ctx):
                 hdr, bdy = res.pop("_header", None), res.pop("_body", None)
                 # the n-grams listed are the n-grams declared: a record that a block-wise compaction loses or resurrects shows here
                 if hdr is not None and hdr != bdy:
-                    spec_fail.append(("lmplz:header-body", {"corpus": "\n".join(lines)[:3000000], "order": order, "cmd": cmdline, "cfg": cfg, "extra": extra,
+                    spec_fail.append(("lmplz:header-body", {"corpus": "\n".join(lines)[:8000000], "order": order, "cmd": cmdline, "cfg": cfg, "extra": extra,
                                                              "header": hdr, "body": bdy},
                                       "the ARPA header declares %s n-grams per order, the sections list %s" % (hdr, bdy)))
                 # hash-table growth never changes the data: the unigram section lists every distinct type once (+ <unk> <s> </s>)
                 if n1 is not None and "--limit_vocab_file" not in extra and n1 != ntypes + 3:
-                    spec_fail.append(("lmplz:unigram-count", {"corpus": "\n".join(lines)[:3000000], "order": order, "cmd": cmdline, "cfg": cfg, "extra": extra,
+                    spec_fail.append(("lmplz:unigram-count", {"corpus": "\n".join(lines)[:8000000], "order": order, "cmd": cmdline, "cfg": cfg, "extra": extra,
                                                                "expected_ngram1": ntypes + 3, "ngram1": n1},
                                       "the ARPA header declares %d unigrams, the corpus has %d distinct word types + <unk> <s> </s>" % (n1, ntypes)))
                 if ref is None:
                     ref = (res, cmdline, cfg)
                 elif res != ref[0]:
                     diff = sorted(k for k in set(res) | set(ref[0]) if res.get(k) != ref[0].get(k))
-                    spec_fail.append(("lmplz:bytes-differ", {"corpus": "\n".join(lines)[:3000000], "order": order, "reference_cmd": ref[1], "differing_cmd": cmdline,
+                    spec_fail.append(("lmplz:bytes-differ", {"corpus": "\n".join(lines)[:8000000], "order": order, "reference_cmd": ref[1], "differing_cmd": cmdline,
                                                              "reference_cfg": ref[2], "differing_cfg": cfg, "extra": extra, "files_that_differ": diff},
                                       "lmplz output differs between two accepted configurations: %s" % ", ".join(diff)))
             elif kind == "rejected":
@@ -639,7 +668,7 @@ def run(ctx):
                 failed_runs += 1
                 failed_msgs.setdefault(res[:120], cmdline)
             else:
-                spec_fail.append(("lmplz:" + kind, {"corpus": "\n".join(lines)[:3000000], "order": order, "cmd": cmdline, "cfg": cfg, "extra": extra, "stderr": res},
+                spec_fail.append(("lmplz:" + kind, {"corpus": "\n".join(lines)[:8000000], "order": order, "cmd": cmdline, "cfg": cfg, "extra": extra, "stderr": res},
                                   "lmplz %s under an accepted-looking configuration: %s" % (kind, res[:200])))
         lattice_report.append({"corpus": name, "sentences": len(lines), "order": order, "options": " ".join(extra), "accepted": sum(1 for k, _ in per_cfg if k == "ok"),
                                "rejected": sum(1 for k, _ in per_cfg if k == "rejected")})
